@@ -729,4 +729,9 @@ def r_levelsets(P, R):
     n = models.swap_model(P, R)
     if n is not None:
         R.floor('R-LEVELSET calls of the swap model', n, 60)
+    # the functions that reorder by driving swap, on a manager reduced
+    # to its variable order
+    n = models.reorder_model(P, R)
+    if n is not None:
+        R.floor('R-REORDER runs of the reorder model', n, 1000)
 r_levelsets.NAME = 'R-LEVELSET'
